@@ -486,6 +486,7 @@ def parse_config(path):
 
     # Output fields are optional, default: most data output, least logging output.
     _output = toml.get("output", {})
+    toml["output"] = _output
     if "directory" in _output:
         _output["directory"] = resolve_path(_output["directory"], path.parent)
     else:
@@ -563,9 +564,10 @@ def _parse_config_params(toml):
 
     # Make sure initial olivine fabric is valid.
     try:
-        _params["initial_olivine_fabric"] = getattr(
-            _core.MineralFabric, "olivine_" + _params["initial_olivine_fabric"]
-        )
+        if not isinstance(_params["initial_olivine_fabric"], _core.MineralFabric):
+            _params["initial_olivine_fabric"] = getattr(
+                _core.MineralFabric, "olivine_" + _params["initial_olivine_fabric"]
+            )
     except AttributeError:
         raise _err.ConfigError(
             f"invalid initial olivine fabric: {_params['initial_olivine_fabric']}"
@@ -677,8 +679,10 @@ def _parse_config_input_postpaths(input, path):
 
 def _parse_output_options(output_opts, level, phase_assemblage):
     try:
+        # By default, produce output for all mineral phases that are being simulated.
         output_opts[level] = [
-            getattr(_core.MineralPhase, ϕ) for ϕ in output_opts[level]
+            ϕ if isinstance(ϕ, _core.MineralPhase) else getattr(_core.MineralPhase, ϕ)
+            for ϕ in output_opts.get(level, phase_assemblage)
         ]
     except AttributeError:
         raise _err.ConfigError(
